@@ -242,7 +242,7 @@ package invoices
 //@ func (i *InvoiceRegistry) cancelInvoiceImpl
 //@   props C15
 //@   loop * havoc
-//@   site call UpdateInvoice: assert arg(2) == ret(InvoiceRefByHash, 1) && arg(3) == nil
+//@   site call UpdateInvoice: assert arg(2) == ret(InvoiceRefByHash, 0) && arg(3) == nil
 //@   site call InvoiceRefByHash: assert arg(0) == payHash
 //@   site call NewFailResolution: assert htlc.State == HtlcStateCanceled && arg(key) == key &&
 //@        arg(acceptHeight) == swrap(htlc.AcceptHeight, 32) && arg(outcome) == ResultCanceled && retn(UpdateInvoice, 1) == nil
